@@ -28,12 +28,125 @@ EXTRACT = z3.Function('extract_json_text', A, A)
 
 def shapes(tier):
     out = [dict(part='sync_write', old=o, n=1) for o in (0, 1)]
+    # the local write path hands NodeToInsert { index, old_fts_str, node_fts_str } prepared by the mutation to the same Node::write
+    out += [dict(part='local_write', old=o, prev=pv, cur=c) for o in (0, 1) for pv in ((0, 1) if o else (0,)) for c in (0, 1)]
     if tier == 'thorough':
         out.append(dict(part='sync_write', old=0, n=2))
     return out
 
 
+def explore_local(ctx, shape, report):
+    """Node::write through NodeToInsert::write on the statement recorder, with what a local mutation prepares: index flag (symbolic), the
+    previous text of a stored version and the current text.  Contract of the hand-maintained content-less index: with indexing on, the previous
+    text is deleted under the row's slot, the current text is inserted under the row's slot (the stored slot, or the one the INSERT returned);
+    with indexing off the index is not touched."""
+    nwrite = ctx.method('NodeToInsert', 'write', trait='Writeable')
+    sql = []
+
+    def prepare(ctx_, args, ci, dt):
+        q = deref(args[1])
+        while isinstance(q, Ref):
+            q = deref(q)
+        if not (isinstance(q, S) and q.lit is not None):
+            raise Unsupported('SQL text is not a literal: %r' % (q,))
+        return ok(Opaque('statement', ' '.join(q.lit.decode().split())))
+
+    def params_of(p):
+        return [deref(c.v) for c in p.fields] if isinstance(p, Struct) else [deref(p)]
+
+    def execute(ctx_, args, ci, dt):
+        sql.append((deref(args[0]).data, params_of(args[1])))
+        return ok(Int(64, False, 1))
+
+    def insert(ctx_, args, ci, dt):
+        rid = ctx_.fresh_int('new_rowid', 'i64')
+        sql.append((deref(args[0]).data, params_of(args[1]), rid))
+        return ok(rid)
+    stubs = {'Connection::prepare_cached': prepare, 'Connection::prepare': prepare, 'CachedStatement::execute': execute, 'Statement::execute': execute,
+             'CachedStatement::insert': insert, 'Statement::insert': insert}
+
+    def path(ctx):
+        w = World(ctx)
+        del sql[:]
+        index = w.boolean('index')
+        nid = S(lit=b'N0'.ljust(16, b'n'))
+        node = w.node(id=nid, room_id=ROOMS[0], cdate=w.i64('cdate'), mdate=w.i64('mdate'), entity=S(lit='s', text=True),
+                      author=w.atom('author', KEYS, 'bytes', n=33), json=w.atom('json', None, 'str'))
+        old_id = w.i64('old_rowid') if shape['old'] else None
+        if old_id is not None:
+            w.field(node, 'Node', '_local_id').v = some(old_id)
+        prev = w.atom('previous_text', None, 'str') if shape['prev'] else None
+        cur = w.atom('current_text', None, 'str') if shape['cur'] else None
+        nti = w.struct('NodeToInsert', id=nid, node=some(node), entity_name=none(), index=index, old_room_id=w.opt(ROOMS[0] if shape['old'] else None),
+                       old_mdate=w.i64('old_mdate'), old_verifying_key=w.opt(KEYS[0] if shape['old'] else None), old_local_id=w.opt(old_id),
+                       old_fts_str=w.opt(prev), node_fts_str=w.opt(cur))
+        info = dict(shape=shape, ft=index, local=True)
+        try:
+            r = ctx.exec_fn(nwrite, [Ref(Cell(nti), True), Ref(Cell(Opaque('connection')))])
+        except Panic as p:
+            report.panic(ctx, w, p, info)
+            return
+        if r.variant != 0:
+            raise Inconclusive('NodeToInsert::write failed although no statement does')
+        report.witness('written')
+        fts = [(i, x) for i, x in enumerate(sql) if '_node_fts' in x[0]]
+        report.path(bool(fts))
+        report.witness('indexed-or-not')
+        slot = old_id
+        if slot is None:
+            ins = [x for x in sql if x[0].startswith('INSERT INTO _node (')]
+            if len(ins) != 1:
+                raise Inconclusive('expected one INSERT INTO _node for a new row, saw %d' % len(ins))
+            slot = ins[0][2]
+        else:
+            upd = [x for x in sql if x[0].startswith('UPDATE _node SET')]
+            if len(upd) != 1 or not isinstance(upd[0][1][-1], Int):
+                raise Inconclusive('expected one UPDATE _node keyed by the storage slot')
+            m = ctx.check_sat(upd[0][1][-1].z() != slot.z())
+            if m is not None:
+                info['problem'] = 'the stored version is rewritten under another storage slot'
+                report.violation(ctx, m, 'local-index-maintenance', info)
+                return
+        dels = [(i, x) for i, x in fts if "VALUES('delete'" in x[0] and isinstance(x[1][0], Int) and isinstance(x[1][1], S)]
+        inss = [(i, x) for i, x in fts if x[0].startswith('INSERT INTO _node_fts (rowid, text)') and isinstance(x[1][0], Int) and isinstance(x[1][1], S)]
+        if len(dels) + len(inss) != len(fts):
+            raise Inconclusive('an index statement of an unknown form')
+        problems = []
+        if cur is not None:
+            good = zor(*[zand(x[1][0].z() == slot.z(), seq(x[1][1], cur)) for i, x in inss])
+            problems.append((zand(zb(index), znot(good)), 'the current text of a locally written row is not put into the full-text index under its slot'))
+        if prev is not None:
+            good = zor(*[zand(x[1][0].z() == slot.z(), seq(x[1][1], prev)) for i, x in dels])
+            problems.append((zand(zb(index), znot(good)), 'the previous text of a locally rewritten row stays in the full-text index'))
+        # nothing else may enter or leave the index: every insert carries the current text, every delete the previous text, all under the slot
+        for i, x in inss:
+            okk = zand(x[1][0].z() == slot.z(), seq(x[1][1], cur)) if cur is not None else False
+            problems.append((znot(okk), 'a text other than the current one is put into the full-text index'))
+        for i, x in dels:
+            okk = zand(x[1][0].z() == slot.z(), seq(x[1][1], prev)) if prev is not None else False
+            problems.append((znot(okk), 'a text other than the stored previous one is taken out of the full-text index'))
+        if len(inss) > 1 or len(dels) > 1:
+            problems.append((True, 'the index is updated twice for one write'))
+        if fts:
+            problems.append((znot(zb(index)), 'a row written with indexing off touches the full-text index'))
+        for cond, what in problems:
+            m = ctx.check_sat(cond)
+            if m is not None:
+                info['problem'] = what
+                report.violation(ctx, m, 'local-index-maintenance', info)
+                return
+
+    ctx.stubs.update(stubs)
+    try:
+        ctx.explore(path)
+    finally:
+        for k in stubs:
+            ctx.stubs.pop(k, None)
+
+
 def explore(ctx, shape, tier, report):
+    if shape['part'] == 'local_write':
+        return explore_local(ctx, shape, report)
     add_nodes = ctx.method('GraphDatabase', 'add_nodes')
     pm = ctx.method('AuthorisationService', 'process_message')
     nwrite = ctx.method('NodeToInsert', 'write', trait='Writeable')
@@ -201,6 +314,15 @@ def explore(ctx, shape, tier, report):
 
 
 def scenario(ctx, m, kind, info):
+    if info.get('local'):
+        sc = dict(kind='search_local_history', property='C17')
+        if kind == 'panic':
+            sc['expect'] = dict(result='panic')
+            return sc
+        sc['expect'] = dict(index_consistent=False)
+        sc['what'] = 'local write: %s (natively: create, rewrite, delete and create again through the public API, then search for every past and current word)' % info.get('problem')
+        sc['signature'] = 'local-index-maintenance:%s' % info.get('problem')
+        return sc
     sc = dict(kind='search_synchronised_row', property='C17', update_existing=bool(info['shape']['old']))
     if kind == 'panic':
         sc['expect'] = dict(result='panic')
